@@ -345,6 +345,21 @@ def run_one(ck, prog):
                     ok = True
                 if isinstance(newv, tuple) and newv[0] == "call" and (newv[1] or "").endswith(("::wrapping_sub", "::saturating_sub", "::unchecked_sub")) and newv[2] and canon(strip_casts(newv[2][0])) == canon(oldv):
                     ok = True
+                # the helper may take (base, size, tail) and compute the kept size itself: then ITS mremap must go from its size parameter to
+                # that parameter minus another, and the call hands the recorded size in that position
+                if not ok:
+                    hf = prog.fns.get(D + "syscall_free_part")
+                    if hf is not None:
+                        ch = prog.ctx(hf)
+                        from ..engine.cfg import is_raw_syscall as _raw3
+                        from .futexflavour import nr_name as _nr
+                        for hb, ht in ch.cfg.calls(lambda t: _raw3(t.get("callee"))):
+                            ha = ch.args(hb)
+                            if ha and _nr(ha[0]) == "MREMAP" and len(ha) >= 4:
+                                o_, n_ = strip_casts(ha[2]), strip_casts(ha[3])
+                                if isinstance(o_, tuple) and o_[0] == "param" and isinstance(n_, tuple) and n_[0] == "bin" and n_[1] in ("Sub", "SubUnchecked") and canon(strip_casts(n_[2])) == canon(o_) and \
+                                        0 < o_[1] <= len(a) and canon(strip_casts(a[o_[1] - 1])) == canon(oldv):
+                                    ok = True
                 # and the record is not reduced before the kernel was asked
                 early = []
                 for b in stf["blocks"]:
@@ -506,7 +521,15 @@ def run_one(ck, prog):
             for rb, e in cy.ret_expr().items():
                 for z in walk_deep(e, cy.prov, limit=80):
                     if z[0] == "agg" and z[1] == "tuple" and len(z[3]) == 3:
-                        reported.add(canon(strip_casts(z[3][1])))
+                        comp = strip_casts(z[3][1])
+                        # the length may come out of a pair built per branch (`let (base, mapped) = if failed { (null, 0) } else { (addr, size) }`)
+                        if isinstance(comp, tuple) and comp[0] == "field" and isinstance(strip_casts(comp[1]), tuple) and strip_casts(comp[1])[0] == "var":
+                            parts = [strip_casts(d) for d in cy.prov.expand(strip_casts(comp[1]))]
+                            if parts and all(isinstance(d, tuple) and d[0] == "agg" and d[1] == "tuple" and len(d[3]) > int(comp[2]) for d in parts):
+                                for d in parts:
+                                    reported.add(canon(strip_casts(d[3][int(comp[2])])))
+                                continue
+                        reported.add(canon(comp))
             reported.discard("0")
             ok11 = ln is not None and reported == {ln}
             why11 = f"mmap is asked for {ln} bytes, the caller is told {sorted(reported)}"
